@@ -284,6 +284,15 @@ def compile_stream(ctx, mods, checks, per_target):
             if bad or not gs.validate(out):
                 report_compile(ctx, mods, rec, f'optimize_for_target_gateset({tname}) left {len(bad)} operation(s) the target does not accept, e.g. {str(bad[:2])[:200]}')
             output_membership_checks(ctx, mods, tname, gs, out, checks, rec)
+            # supporting (not deciding): for already-native input a two-qubit target keeps the old operations unless the new
+            # decomposition has fewer two-qubit gates, so the output never has more two-qubit operations than the input
+            if kind == 'native' and not tname.startswith('pasqal'):
+                n2 = lambda c: sum(1 for o in unrolled(cirq, c).all_operations() if len(o.qubits) == 2)
+                ctx.cov['two_qubit_count_cases'] = ctx.cov.get('two_qubit_count_cases', 0) + 1
+                if n2(out) > n2(circuit):
+                    note = f'two-qubit-count-choice:{tname}: output has {n2(out)} two-qubit operations, the already-native input {n2(circuit)}'
+                    if not any(x.startswith(f'two-qubit-count-choice:{tname}') for x in ctx.stale_supporting):
+                        ctx.stale_supporting.append(note)
             # (ii) same unitary up to global phase, evaluated in Coq from each operation's own matrix
             try:
                 lhs, rhs = gop_list(cirq, circuit, qs), gop_list(cirq, out, qs)
@@ -507,6 +516,10 @@ def membership_items(mods, rng):
                 items.append(op.with_tags(*t))
             if rng.random() < 0.3:
                 items.append(op.with_tags(*rng.choice(tags[2:])))
+    # every tag combination on the gates the tagged families talk about
+    for g in (cirq.X, cirq.X ** 0.5, cirq.Z, cirq.Z ** 0.3, cirq.CZ, cirq.CZ ** 0.5, cirq.ISWAP, cirq.SQRT_ISWAP, cirq.H, cirq.rx(math.pi)):
+        for t in tags[2:]:
+            items.append(g.on(*q[:cirq.num_qubits(g)]).with_tags(*t))
     sub1 = cirq.FrozenCircuit(cirq.CZ(q[0], q[1]), cirq.PhasedXZGate(x_exponent=0.1, z_exponent=0.2, axis_phase_exponent=0.3).on(q[0]))
     sub2 = cirq.FrozenCircuit(cirq.CZ(q[0], q[1]), cirq.ISWAP(q[1], q[2]))
     sub3 = cirq.FrozenCircuit(cirq.CircuitOperation(sub1), cirq.X(q[2]) ** 0.5)
